@@ -8,7 +8,7 @@ import hashlib
 import json
 import os
 
-from vlib import runner, sut, std, cli, corpusio
+from vlib import runner, sut, std, cli, corpusio, fuzz
 from vlib.compare import first_value_diff, same_value
 from vlib.runner import Outcome, Report, Reject
 from gen import messages as gmsg, templates as gtemplates
@@ -323,6 +323,26 @@ def check_cli(sc):
     return out
 
 
+def gen_opts(tier):
+    opts = gmsg.GenOpts(tier)
+    opts.min_subsets = 1
+    opts.max_subsets = 5 if tier == 'quick' else 12
+    opts.template = gtemplates.Opts(max_ids=14 if tier == 'quick' else 30)
+    opts.extra_widths = False
+    return opts
+
+
+# ---- coverage-guided stage: the same generator and oracle, decisions taken from fuzzer bytes (vlib.fuzz) ----
+_FUZZ_OPTS = gen_opts('quick')
+
+
+def _fuzz_gen(ch):
+    return gen_case(ch, _FUZZ_OPTS)
+
+
+fuzz_case = fuzz.structured_target(_fuzz_gen, check_case)
+
+
 def run(tier, seed):
     rep = Report(PID, tier, seed, 'exploration')
     rep.rule = ('C01 messages (every operator / replication shape, compressed or not, 1..n subsets) x index collections {single, full, '
@@ -333,11 +353,7 @@ def run(tier, seed):
     rep.assumptions = ['expected values = the reference values of the selected subsets; corpus: all-ones raw fields may come back as missing']
     workers = runner.tier_workers(tier)
     std.replay_files(rep, PID, check_case, SubCase.from_json)
-    opts = gmsg.GenOpts(tier)
-    opts.min_subsets = 1
-    opts.max_subsets = 5 if tier == 'quick' else 12
-    opts.template = gtemplates.Opts(max_ids=14 if tier == 'quick' else 30)
-    opts.extra_widths = False
+    opts = gen_opts(tier)
     n = 2500 if tier == 'quick' else 60000
     runner.run_generated(rep, lambda ch: gen_case(ch, opts), check_case, n, workers)
     stride = 12 if tier == 'quick' else 1
@@ -348,6 +364,7 @@ def run(tier, seed):
                          4 if tier == 'quick' else workers, stage='command line')
     rep.required_classes = ['indices_repeats', 'indices_random', 'container_set', 'container_tuple', 'column_becomes_constant',
                             'out_of_range_probe', 'compressed', 'uncompressed', 'corpus', 'cli']
+    fuzz.run_structured(rep, 'checks.c10', _fuzz_gen, tier)
     return rep.finish()
 
 
